@@ -12,7 +12,8 @@ poll_inv poll_script_suffix run_spec
 async_reader_schedule_independent async_reader_complete async_reader_roundtrip
 transient_error_once transient_error_resumes
 async_truncation async_truncation_never_value
-async_resync poll_good async_alloc offset_le_four async_oversize_rejected""".split()] + [
+async_resync poll_good async_alloc offset_le_four async_oversize_rejected
+set_max_len_frame_in_flight pollLoop_readVal_max""".split()] + [
     "Minicbor.Frame.pollLoop_spec", "Minicbor.Frame.pollLoop_script", "Minicbor.Frame.absorb_settle", "Minicbor.Frame.frame_inj"]
 PACKAGES = ["hio"]
 RULE = ("aread scenarios on the real AsyncReader over a scripted futures_io::AsyncRead, futures polled by hand with a no-op waker and dropped "
@@ -339,6 +340,45 @@ def big_ops(rng, tier):
     return ops
 
 
+def setmax_ops(rng, tier):
+    """`set_max_len` between a dropped read and the next one, the frame in flight longer than the new limit (it was admitted under the old
+    one and must arrive whole), the frames after it within the new limit"""
+    ops = []
+    for _ in range(300 if tier == "quick" else 6000):
+        L = rng.choice([5, 24, 40, 300])
+        v = rng.choice([0, 1, 3, L // 2, L - 1, L, L + 5])
+        first = ("b", gen.rand_bytes(rng, L))
+        rest = [("b", gen.rand_bytes(rng, rng.randint(0, max(v - 3, 0)))) if v >= 3 else ("u", rng.randint(0, 23)) for _ in range(rng.randint(0, 3))]
+        rest = [x for x in rest if len(F.payload(x)) <= v]
+        vs = [first] + rest
+        ps = [F.payload(x) for x in vs]
+        st = F.frames(ps)
+        k = rng.randint(0, len(ps[0]) - 1)
+        pre = rng.choice([[4], [1, 3], [2, "p", 2]])
+        evs = pre + ([k] if k else []) + ["p"] + tail(len(ps))
+        # polls until the source is Pending with the payload partly read, the future dropped (explicitly or by the call), the limit changed
+        npre = 1 + sum(1 for e in pre if e == "p")
+        acts = "p" * npre + rng.choice(["m", "dm", "ddm"]) + "p" * (len(ps) + 3)
+        ops.append(f"areadm {len(ps[0])} {gen.hexb(st)} {F.script_tok(evs)} {acts} {v} #k=setmax #p={'/'.join(gen.hexb(p) for p in ps)}")
+    return ops
+
+
+def judge_setmax(op, impl, model, spec):
+    if impl in ("panic", "bad-op") or impl.startswith("crash"):
+        return "violation"
+    w = op.split(" ")
+    acts = w[4]
+    toks = impl.split(" ")[0].split(",")
+    if len(toks) != len(acts) or any((a in "dm") != (t == "-") for a, t in zip(acts, toks)):
+        return "violation"
+    data = [t for t in toks if t not in ("P", "-")]
+    ps = [b"" if x == "-" else bytes.fromhex(x) for x in F.ann(op, "p").split("/")]
+    exp = expect_tokens(ps)
+    if not (len(data) > len(exp) and all(tok_matches(t, e) for t, e in zip(data, exp)) and all(t == "none" for t in data[len(exp):])):
+        return "violation"              # the frame in flight (or one behind it) was torn, lost or refused
+    return "ok" if F.strip_peak(impl) == model else "corr"
+
+
 def mk(name, ops, rule):
     if name != "replay":
         ops = F.ctor_expand(ops)      # every 4th scenario once more through with_buffer(..) with some buffer
@@ -356,10 +396,15 @@ def streams(rng, tier):
         mk("resync", resync_ops(rng, tier), "bad payloads between good frames under random schedules"),
         mk("maxlen", maxlen_ops(rng, tier), "max_len around the frame size, hostile prefixes; oracle: err:len, buffer untouched, allocation bounded"),
         mk("random-walks", random_ops(rng, tier), "seeded random walks; benign ones judged by the oracle, the rest against the model"),
+        Stream("set-max-len-in-flight", "hio", setmax_ops(rng, tier), judge=judge_setmax, nontrivial=lambda op, impl: "some:" in impl,
+               rule="areadm: the payload partly read, the future dropped, set_max_len(k) with k below / at / above the length of the frame in flight, read again: "
+                    "every frame whole and in order, then a clean end (theorem set_max_len_frame_in_flight: in state ReadVal the limit is not consulted)"),
         mk("big-frames", big_ops(rng, tier), "frames of 65537..100005 bytes delivered in 20..66 KB pieces with Pendings / transient errors mid-payload and drops; oracle: every value once, in order, then none, rem=0"),
         mk("long-streams", long_ops(rng, tier), "31..300 frames in one scenario under chunking, Pendings, transient errors and a drop after every / a third of / no poll; oracle: every value once, in order, then none, rem=0"),
     ]
 
 
 def replay_streams(rp):
+    if rp["original_op"].startswith("areadm"):
+        return [Stream("replay", "hio", [rp["original_op"]], judge=judge_setmax)]
     return [mk("replay", [rp["original_op"]], "replay")]
